@@ -665,9 +665,9 @@ def iterfit(xdata, ydata, invvar=None, upper=5, lower=5, x2=None,
                     i += 1
                 ct = 0
                 for ileft in range(sset.nord, sset.mask.sum()-sset.nord+1):
-                    while (xwork[i] >= sset.breakpoints[goodbk[ileft]] and
-                           xwork[i] < sset.breakpoints[goodbk[ileft+1]] and
-                           i < nx-1):
+                    while (i < nx and
+                           xwork[i] >= sset.breakpoints[goodbk[ileft]] and
+                           xwork[i] < sset.breakpoints[goodbk[ileft+1]]):
                         ct += invwork[i]*maskwork[i] > 0
                         i += 1
                     if ct >= requiren:
